@@ -46,6 +46,17 @@ pub fn to_i(v: &V) -> i64 {
   }
 }
 
+/// `average` works in f64 and rxRust multiplies by a reciprocal where the reference model divides: the two differ in the
+/// last place. Inputs are folded into 0..4096 (sums stay exact) and the result is read in thousandths with a cut at
+/// x.7: 1000*sum/n is never within 1/(10n) of such a cut for n < 625 (10000*sum/n is a multiple of 5), so both roundings
+/// land on the same integer.
+pub fn avg_in(v: &V) -> f64 {
+  to_i(v).rem_euclid(4096) as f64
+}
+pub fn avg_out(x: f64) -> V {
+  V::I((x * 1000.0 + 0.3).floor() as i64)
+}
+
 #[derive(Clone, Copy, Debug, PartialEq, Eq, Hash)]
 pub enum Pred {
   Lt(i64),
